@@ -12,7 +12,7 @@ Oracle (only what the statement says):
   * conservation - at every cut, after every re-run, at the end and after a
     second run one hour later, every event / finished record that existed
     before is a live node or is returned by download_batch from some snapshot
-    (finished records: a row with the same data);
+    (finished records: a row with the same data, and named by list_traces);
   * nothing premature - events of still-scheduled instances and events /
     records whose timestamp is not older than now - expiry are still live;
   * pruning keeps the lexicographically greatest max_count snapshots, at every
@@ -102,9 +102,11 @@ def _worker(chunk):
                                               'site': v['site']})
                 else:
                     viols[key]['count'] += 1
-            if nt and len(samples) < 1 and case['family'] == 'T' and \
+            if nt and len(samples) < 1 and case['family'] in 'TFS' and \
                     stats.get('cuts', 0) >= 3:
                 samples.append({'case': w.describe(case),
+                                'archiver_writes_of_the_full_run':
+                                    w.LAST.get('archive_log'),
                                 'writes': stats.get('writes'),
                                 'cuts': stats.get('cuts'),
                                 'records_checked':
@@ -134,6 +136,14 @@ def _confirm(v):
 
 
 def run(ctx):
+    w.run_root_begin()
+    try:
+        return _run(ctx)
+    finally:
+        w.run_root_end()
+
+
+def _run(ctx):
     tier = ctx.tier
     cases = _cases(tier)
     chunks = [(tier, lo, min(len(cases), lo + CHUNK))
@@ -198,6 +208,14 @@ def run(ctx):
 
 
 def replay(ctx, data):
+    w.run_root_begin()
+    try:
+        return _replay(data)
+    finally:
+        w.run_root_end()
+
+
+def _replay(data):
     case = w.undescribe(data['case'])
     w.install_clock()
     w.scratch_begin()
